@@ -84,6 +84,7 @@ func C08(c *Ctx) {
 	c08StaticLeader(c)
 	r.Rule("C08-f", "the first-invocation graph is read-only for its consumers: no function that receives the graph built by MakeFirstGraph (findLeader, FindCyclesInSCC, reduceGraph, the component search) stores into it or into one of its adjacency sets - ComputeLeftRecursives consults the same graph for every component in turn")
 	firstGraphReadOnly(c, "C08-f")
+	r.Rule("C08-i", "what the final, non-extending growth attempt did is discarded as a whole: where the error list is cut back to the snapshot, the memo entries made since the snapshot are invalidated too (C11-i under this property, finding F28)")
 	abs := c.allAbs()
 	n := 0
 	for _, a := range abs {
@@ -107,6 +108,7 @@ func C08(c *Ctx) {
 		// while errors are recorded by appending (C06-f / C11-b under this property)
 		errListKeepsAll(c, v, "C08-a2")
 		errListMethodsKeepErrors(c, v, "C08-a2")
+		rolledBackErrorsVsMemo(c, v, "C08-i")
 		// ---- b
 		if !v.Params.Optimize {
 			memoOffInLeftRecursiveRules(c, v, "C08-b")
